@@ -327,11 +327,19 @@ func pow2(place string) (float64, bool) {
 	return 1, false
 }
 
+var farOffset = model2d.XY(3*(1<<28), -(1 << 29))
+
 func checkTriangulate(r *ev.Run, p []pt, place string) {
 	sc, scaled := pow2(place)
+	var off model2d.Coord
+	if place == "far" {
+		// far from the origin relative to its size (offset / edge length about 1e9, all coordinates exact integers):
+		// anything computed from absolute coordinates instead of differences cancels catastrophically here
+		off, scaled = farOffset, true
+	}
 	poly := make([]model2d.Coord, len(p))
 	for i, v := range p {
-		poly[i] = model2d.XY(float64(v.x)*sc, float64(v.y)*sc)
+		poly[i] = model2d.XY(float64(v.x)*sc, float64(v.y)*sc).Add(off)
 	}
 	c := polyCase{"Triangulate", toLoops([][]pt{p}), place}
 	suffix := ""
@@ -345,7 +353,7 @@ func checkTriangulate(r *ev.Run, p []pt, place string) {
 	}
 	for i := range ts {
 		for k := 0; k < 3; k++ {
-			ts[i][k] = ts[i][k].Scale(1 / sc)
+			ts[i][k] = ts[i][k].Sub(off).Scale(1 / sc)
 		}
 	}
 	it, msg := convTris(ts, true)
@@ -391,7 +399,10 @@ func checkTriangulateMesh(r *ev.Run, loops [][]pt, place string) {
 	case "shift":
 		f = func(p pt) model2d.Coord { return model2d.XY(float64(p.x+100), float64(p.y-37)) }
 		inv = func(c model2d.Coord) model2d.Coord { return model2d.XY(c.X-100, c.Y+37) }
-	case "pow2:-10", "pow2:-14", "pow2:10":
+	case "far":
+		f = func(p pt) model2d.Coord { return model2d.XY(float64(p.x), float64(p.y)).Add(farOffset) }
+		inv = func(c model2d.Coord) model2d.Coord { return c.Sub(farOffset) }
+	case "pow2:-10", "pow2:-24", "pow2:10":
 		sc, _ := pow2(place)
 		f = func(p pt) model2d.Coord { return model2d.XY(float64(p.x)*sc, float64(p.y)*sc) }
 		inv = func(c model2d.Coord) model2d.Coord { return c.Scale(1 / sc) }
@@ -696,7 +707,7 @@ func main() {
 	if r.Thorough() {
 		maxN = 6
 	}
-	r.Rule(fmt.Sprintf("every vertex sequence of length 3..%d on the %dx%d integer grid that forms a simple polygon (so every start vertex and both directions) through Triangulate and TriangulateFace (5 planes); every such polygon up to rotation/reversal through TriangulateMesh at 7 placements (identity, 90 degree rotation, integer shift, generic rotation, coordinates x 2^-10, 2^-14, 2^10 - exact scalings, the integer oracle applies after dividing back), through Triangulate at the three scalings, and ProfileMesh; "+
+	r.Rule(fmt.Sprintf("every vertex sequence of length 3..%d on the %dx%d integer grid that forms a simple polygon (so every start vertex and both directions) through Triangulate and TriangulateFace (5 planes); every such polygon up to rotation/reversal through TriangulateMesh at 8 placements (identity, 90 degree rotation, integer shift, generic rotation, coordinates x 2^-10, 2^-24, 2^10 - exact scalings, the integer oracle applies after dividing back - and an exact integer offset of about 1e9 grid units), through Triangulate at the three scalings and the far offset, and ProfileMesh; "+
 		"every outer polygon with n <= 4 scaled x4 with every 2x2 square / right-triangle hole at integer positions strictly inside (and pairs of disjoint holes, nested islands in the thorough tier). Oracle exact in integers: vertex subset, non-degenerate, inside (centroid, edge midpoints, no proper crossing of the boundary), pairwise interior-disjoint, areas sum to the region area, clockwise where documented. non-trivial = polygons with a reflex vertex / regions with holes", maxN, gw, gh))
 	r.Assume("grid polygons with integer coordinates; generic-rotation placement is compared after mapping back with 1e-9 tolerance")
 	r.Isolate("triangulate", func() {
@@ -740,11 +751,11 @@ func main() {
 		var total, nt int64
 		for n := 3; n <= maxN; n++ {
 			enumPolys(gw, gh, n, true, func(p []pt) {
-				for _, place := range []string{"", "rot90", "shift", "generic", "pow2:-10", "pow2:-14", "pow2:10"} {
+				for _, place := range []string{"", "rot90", "shift", "generic", "pow2:-10", "pow2:-24", "pow2:10", "far"} {
 					checkTriangulateMesh(r, [][]pt{p}, place)
 					atomic.AddInt64(&total, 1)
 				}
-				for _, place := range []string{"pow2:-10", "pow2:-14", "pow2:10"} {
+				for _, place := range []string{"pow2:-10", "pow2:-24", "pow2:10", "far"} {
 					checkTriangulate(r, p, place)
 					atomic.AddInt64(&total, 1)
 				}
